@@ -149,7 +149,25 @@ def hits_at(x, xc, yc):
     return out, steep
 
 
-def dcf_record(cdc, case):
+def make_steps(case):
+    """the steps argument with the python / numpy type the case asks for"""
+    steps, t = case["steps"], case.get("steps_type", "list")
+    if t == "range":
+        return range(int(steps[0]), int(steps[-1]) + 1, int(steps[1] - steps[0]) if len(steps) > 1 else 1)
+    if t == "intarray":
+        return np.array(steps, dtype=np.int64)
+    if t == "int32array":
+        return np.array(steps, dtype=np.int32)
+    if t == "floatarray":
+        return np.array(steps, dtype=float)
+    if t == "tuple":
+        return tuple(steps)
+    return list(steps)        # ints stay ints, floats stay floats
+
+
+def dcf_record(cdc, case, obj=None):
+    """obj: an existing contour object to call on (histories on one object); its coordinates are
+    case['coords'] at this moment"""
     coords = np.asarray(case["coords"], dtype=float)
     swap = bool(case["swap"])
     kind = case["steps_kind"]
@@ -163,17 +181,18 @@ def dcf_record(cdc, case):
     scale = 10.0 ** math.floor(8.9 - math.log10(mx))
     q = lambda v: Q(v, scale)
 
-    def call(c, sw):
+    def call(c, sw, on=None):
+        target = on if on is not None else StandIn(c)
         with warnings.catch_warnings():
             warnings.simplefilter("ignore")
             if kind == "none":
-                return np.asarray(cdc(StandIn(c), swap_axis=sw), dtype=float)
+                return np.asarray(cdc(target, swap_axis=sw), dtype=float)
             if kind == "int":
-                return np.asarray(cdc(StandIn(c), steps=int(steps), swap_axis=sw), dtype=float)
-            return np.asarray(cdc(StandIn(c), steps=list(steps), swap_axis=sw), dtype=float)
+                return np.asarray(cdc(target, steps=int(steps), swap_axis=sw), dtype=float)
+            return np.asarray(cdc(target, steps=make_steps(case), swap_axis=sw), dtype=float)
 
     try:
-        dc = call(coords, swap)
+        dc = call(coords, swap, obj)
         if dc.size and (dc.ndim != 2 or dc.shape[1] != 2):
             rec["shape2"] = False
             dc = np.zeros((0, 2))
@@ -282,6 +301,24 @@ def steps_variants(rng, coords, swap):
     yield "list", [float(v) for v in mixed]
     vert = rng.choice(xcol, size=min(len(xcol), 5), replace=False)        # exactly at vertex abscissae
     yield "list", [float(v) for v in vert] + [float(lo), float(hi)]
+    # integer-typed explicit steps: list of ints, range, int64 / int32 array, mixed int / float, tuple
+    ints = list(range(int(math.ceil(lo)) - 1, int(math.floor(hi)) + 2))
+    if len(ints) >= 3:
+        k = int(rng.integers(0, 5))
+        if k == 0:
+            sel = [int(v) for v in rng.permutation(ints)[: max(2, len(ints) // 2)]]
+            yield "list", sel, "intlist"
+        elif k == 1:
+            stride = int(rng.integers(1, 3))
+            yield "list", ints[::stride], "range"
+        elif k == 2:
+            yield "list", ints, "intarray"
+        elif k == 3:
+            yield "list", ints[::-1], "int32array"
+        else:
+            mix = [v if i % 2 else float(v) + 0.5 for i, v in enumerate(ints)]
+            yield "list", mix, "mixed"
+        yield "list", [float(v) for v in ints], ("floatarray" if rng.random() < 0.5 else "tuple")
 
 
 def dcf_cases(ctx, vc, rng):
@@ -290,9 +327,52 @@ def dcf_cases(ctx, vc, rng):
     polys = [("star", star_polygon(rng)) for _ in range(nstar)] + model_contours(vc, rng, ncont)
     for idx, (src, co) in enumerate(polys):
         for swap in (False, True):
-            for kind, steps in steps_variants(rng, co, swap):
+            for var in steps_variants(rng, co, swap):
+                kind, steps = var[0], var[1]
                 yield dict(kind="dcf", src=src, idx=idx, coords=[[float(a), float(b)] for a, b in co],
-                           swap=swap, steps_kind=kind, steps=steps)
+                           swap=swap, steps_kind=kind, steps=steps, steps_type=var[2] if len(var) > 2 else "list")
+
+
+def hist_records(cdc, case):
+    """One contour object through a history of calls and coordinate changes; every call gives a
+    'dcf' record judged against the coordinates the object has AT THAT MOMENT."""
+    rng = np.random.default_rng([case["seed"], case["idx"], 23])
+    obj = StandIn(np.array(case["coords"], dtype=float))
+    out = []
+    for pos, op in enumerate(case["ops"]):
+        if op == "assign":
+            cur = np.asarray(obj.coordinates, dtype=float)
+            how = int(rng.integers(0, 3))
+            if how == 0:       # unit conversion / shift: a new array
+                obj.coordinates = cur * float(rng.choice([0.5, 1.94384, 3.6])) + rng.uniform(-1, 4, size=2)
+            elif how == 1:     # another polygon altogether
+                obj.coordinates = star_polygon(rng)
+            else:              # re-sorted: reversed orientation, other start vertex, stretched
+                obj.coordinates = np.roll(cur[::-1], int(rng.integers(0, len(cur))), axis=0) * np.array([1.0, 1.7])
+        elif op == "inplace":
+            how = int(rng.integers(0, 3))
+            if how == 0:
+                obj.coordinates[:, 1] += float(rng.uniform(1, 5))
+            elif how == 1:
+                obj.coordinates *= float(rng.choice([0.5, 2.0, 1.3]))
+            else:
+                obj.coordinates[:, 0] = obj.coordinates[:, 0] * 1.5 - 2.0
+        else:
+            swap = op == "call_swap"
+            cur = np.array(obj.coordinates, dtype=float)
+            xcol = cur[:, 1] if swap else cur[:, 0]
+            lo, hi = float(xcol.min()), float(xcol.max())
+            if (pos + case["idx"]) % 2:
+                kind, steps = "none", None
+            else:
+                kind, steps = "list", [float(v) for v in np.sort(rng.uniform(lo, hi, 5))] + [hi + 1.0]
+            sub = dict(kind="dcf", src="history", idx=case["idx"], coords=[[float(a), float(b)] for a, b in cur],
+                       swap=swap, steps_kind=kind, steps=steps, steps_type="list")
+            rec, ycls = dcf_record(cdc, sub, obj=obj)
+            if not np.array_equal(np.asarray(obj.coordinates, dtype=float), cur):
+                rec["exc"] = rec["exc"] or "CoordinatesModifiedByCall"
+            out.append((rec, ycls, f"call#{pos + 1}"))
+    return out
 
 
 # ----------------------------------------------------------------------------------
@@ -308,9 +388,11 @@ def key_of(case, ycls=""):
         order = "asc" if case["xs"][0] < case["xs"][-1] else "desc"
         return (f"design lattice poly={case['poly']} xs={order} swap={case['swap']} "
                 f"unit={case.get('unit', 0.5)} off=({case.get('offx', 0.0)},{case.get('offy', 0.0)}) {ycls}")
+    if k == "hist":
+        return f"design history ops={','.join(case['ops'])} idx={case['idx']} seed={case['seed']} {ycls}"
     st = case["steps_kind"] if case["steps_kind"] != "int" else f"int{case['steps']}"
     if case["steps_kind"] == "list":
-        st = f"list{len(case['steps'])}"
+        st = f"{case.get('steps_type', 'list')}{len(case['steps'])}"
     return f"design {case['src']}#{case['idx']} n={len(case['coords'])} steps={st} swap={case['swap']} {ycls}"
 
 
@@ -318,10 +400,12 @@ def execute(vc, case):
     from virocon._intersection import intersection
     from virocon.utils import calculate_design_conditions
     if case["kind"] == "isect":
-        return isect_record(intersection, case), ""
+        return [(isect_record(intersection, case), "", "")]
     if case["kind"] == "dcl":
-        return dcl_record(calculate_design_conditions, case)
-    return dcf_record(calculate_design_conditions, case)
+        return [dcl_record(calculate_design_conditions, case) + ("",)]
+    if case["kind"] == "hist":
+        return hist_records(calculate_design_conditions, case)
+    return [dcf_record(calculate_design_conditions, case) + ("",)]
 
 
 def selftest_records():
@@ -386,32 +470,33 @@ def selftest_records():
 
 
 def judge(ctx, vc, cases, label, selftest=False, chunk=50000):
-    recs, ycl = [], []
+    recs, ycl, owner = [], [], []
     for i, c in enumerate(cases):
-        r, y = execute(vc, c)
-        r["id"] = i + 1
-        recs.append(r)
-        ycl.append(y)
+        for r, y, sub in execute(vc, c):
+            r["id"] = len(recs) + 1
+            recs.append(r)
+            ycl.append((y + " " + sub).strip())
+            owner.append(i)
     st = selftest_records() if selftest else []
     failing = ctx.validate("Trace_C17", "Trace_C17.cfg", recs + [r for r, _ in st], chunk=chunk, xss="256m")
     for r, expect in st:
         got = failing.pop(r["id"], [])
         if sorted(got) != sorted(expect):
             raise Machinery(f"selftest: synthetic record {r} expected rejection by {expect}, got {got}")
-    for i, c in enumerate(cases):
-        r = recs[i]
+    for i, r in enumerate(recs):
+        c = cases[owner[i]]
         if c["kind"] == "isect":
             nontrivial = len(r["ox"]) > 0
         elif c["kind"] == "dcl":
             nontrivial = len(r["rx"]) > 0
         else:
-            nontrivial = (len(r["rx"]) > 0 and any(len(h) > 2 for h in r["hits"])) or c["steps_kind"] != "list"
+            nontrivial = (len(r["rx"]) > 0 and any(len(h) > 2 for h in r["hits"])) or r["steps"] != "list"
         ctx.case(key_of(c, ycl[i]), nontrivial)
         for clause in failing.get(r["id"], []):
             detail = {k: (v if not isinstance(v, list) or len(v) <= 12 else v[:12] + ["..."]) for k, v in r.items()
                       if k not in ("poly", "p", "q")}
             ctx.violation(clause, key_of(c, ycl[i]), f"record={detail}", replay=c)
-    ctx.log(f"{label}: {len(cases)} executions judged, {sum(1 for r in recs if r['id'] in failing)} rejected")
+    ctx.log(f"{label}: {len(recs)} executions judged, {sum(1 for r in recs if r['id'] in failing)} rejected")
     return recs
 
 
@@ -420,11 +505,14 @@ def run(ctx):
     ctx.rule = ("exhaustive: every pair of a 3-vertex and a 2-vertex polyline on a 3x3 (quick) / 4x4 (thorough, "
                 "general position) lattice through intersection(); every star-shaped lattice polygon with <= 4 "
                 "(quick) / 5 (thorough) vertices on the 4x4 lattice (all rotations) x abscissae at every half unit "
-                "from one below to one above the extent (ascending; descending for all (thorough) / every 4th "
-                "(quick)) x swap_axis through "
+                "from one below to one above the extent (ascending; descending and swap_axis for all (thorough) / every "
+                "8th resp. 2nd polygon (quick)) through "
                 "calculate_design_conditions, plus scaled / shifted copies; seeded random: integer polylines on "
                 "0..100, star-shaped non-convex float polygons and IFORM / ISORM / direct-sampling contours of "
-                "random 2-D models x steps None / int / lists inside, outside, at vertex abscissae x swap_axis. "
+                "random 2-D models x steps None / int / lists inside, outside, at vertex abscissae, integer-typed "
+                "(int list, range, int64 / int32 array, mixed, tuple) x swap_axis; every history of 4 (quick) / 5 "
+                "(thorough) operations call / call swapped / assign new coordinates / modify in place on ONE "
+                "contour object, emitted by TLC (DesignCondHist). "
                 "distinct = distinct call; non-trivial = at least one returned point / row")
     ctx.trusted = ["TLC 1.8 evaluating spec/IntersectOps.tla, spec/DesignCondOps.tla, spec/Trace_C17.tla",
                    "harness/c17.py hits_at(): one-line interpolation of every polygon edge spanning an abscissa",
@@ -451,17 +539,19 @@ def run(ctx):
     gen = ctx.generate("IntersectGen", ctx.pick("Gen_Intersect_quick.cfg", "Gen_Intersect_thorough.cfg"), timeout=3000)
     cases = [dict(kind="isect", p=g["p"], q=g["q"]) for g in gen]
     sc = [dict(c, unit=0.3, offx=-1.7, offy=0.9) for c in cases[::ctx.pick(7, 11)]]
-    recs = judge(ctx, vc, cases + sc, "lattice polyline pairs", selftest=True)
+    rp = list(random_polylines(rng, ctx.pick(2000, 30000)))
+    recs = judge(ctx, vc, cases + sc + rp, "lattice polyline pairs + random integer polylines", selftest=True)
     ctx.sample({"emitted": gen[len(gen) // 3], "record": recs[len(gen) // 3]})
     ctx.notes["lattice_polyline_pairs"] = len(gen)
-    rp = list(random_polylines(rng, ctx.pick(2000, 30000)))
-    judge(ctx, vc, rp, "random integer polylines")
+    ctx.notes["random_integer_polyline_pairs"] = len(rp)
     # R + V: design conditions on lattice polygons
     gen2 = ctx.generate("DesignCond", ctx.pick("Gen_DesignCond_quick.cfg", "Gen_DesignCond_thorough.cfg"), timeout=3000)
     gen2.sort(key=lambda g: (g["poly"], g["swap"], g["xs"][0]))
     dcl = [dict(kind="dcl", poly=g["poly"], xs=g["xs"], swap=g["swap"]) for g in gen2]
-    if q:   # quick: every polygon x swap with ascending abscissae, the descending list for every 4th
-        dcl = [c for i, c in enumerate(dcl) if c["xs"][0] < c["xs"][-1] or (i // 2) % 4 == 0]
+    if q:   # quick: every polygon with ascending abscissae; swap_axis for every 2nd, the descending list for every 8th
+        dcl = [c for i, c in enumerate(dcl)
+               if (c["xs"][0] < c["xs"][-1] and (not c["swap"] or (i // 4) % 2 == 0))
+               or (c["xs"][0] > c["xs"][-1] and (i // 4) % 8 == 0)]
     var = [dict(c, unit=0.1, offx=0.3, offy=1.7) for c in dcl[1::ctx.pick(9, 13)]]
     var += [dict(c, unit=0.25, offx=-2.0, offy=-1.0) for c in dcl[2::ctx.pick(9, 13)]]       # straddles the axes
     var += [dict(c, unit=0.5, offx=-7.0, offy=-9.0) for c in dcl[3::ctx.pick(29, 43)]]       # below / left of the axes
@@ -470,9 +560,18 @@ def run(ctx):
     ctx.notes["lattice_polygon_cases"] = len(gen2)
     # V: float polygons
     fc = list(dcf_cases(ctx, vc, rng))
-    recs3 = judge(ctx, vc, fc, "float polygons (star-shaped, IFORM/ISORM/DS contours)", chunk=4000)
+    # R + V: histories on one contour object (call / assign / modify in place / call again)
+    ctx.model_check("DesignCondHist", "MC_DesignCondHist_keep.cfg", expect_violation="UsesCurrent")
+    gen3 = ctx.generate("DesignCondHist", ctx.pick("Gen_DesignCondHist_quick.cfg", "Gen_DesignCondHist_thorough.cfg"))
+    gen3.sort(key=lambda g: g["ops"])
+    hc = [dict(kind="hist", ops=g["ops"], idx=i, seed=ctx.seed,
+               coords=[[float(a), float(b)] for a, b in star_polygon(rng)]) for i, g in enumerate(gen3)]
+    recs3 = judge(ctx, vc, fc + hc, "float polygons (star-shaped, IFORM/ISORM/DS contours) + object histories",
+                  chunk=4000)
     ctx.sample({"case": {k: v for k, v in fc[7].items() if k != "coords"}, "record": recs3[7]})
+    ctx.sample({"emitted_history": gen3[len(gen3) // 2]})
     ctx.notes["float_polygon_calls"] = len(fc)
+    ctx.notes["object_histories"] = len(gen3)
     ctx.exhaustive = True
 
 
